@@ -34,8 +34,11 @@ EXTENDS MatrixADT, TLC, Json, IOUtils
 Rec == ndJsonDeserialize(IOEnv.TRACE)
 NReg == 4
 
-VARIABLES l, regs, ty, nbad, hits
-vars == <<l, regs, ty, nbad, hits>>
+VARIABLES l, regs, ty, nbad, hits,
+          nh     \* the last accepted non-integer p-norm of the run: [s: operand data, d: their magnitudes, p, o]
+vars == <<l, regs, ty, nbad, hits, nh>>
+
+NoNH == [s |-> <<>>, d |-> <<>>, p |-> 0, o |-> 0]
 
 EmptyRegs == [i \in 1..NReg |-> Empty]
 RegOf(i) == IF i >= 1 /\ i <= NReg THEN regs[i] ELSE Empty
@@ -102,7 +105,13 @@ CheckNormHalf(e, A) ==
     ELSE IF e.status # "ok" THEN "Panicked"
     ELSE IF Len(e.out) # 1 THEN "Shape"
     ELSE IF e.out[1] = NONFIN THEN "NotFinite"
-    ELSE IF NormHalfOK(ty, A, e.ia[1], e.out[1]) THEN "" ELSE "Value"
+    ELSE IF ~NormHalfOK(ty, A, e.ia[1], e.out[1]) THEN "Value"
+    \* a norm does not depend on the signs of the entries: norm_p(A) = norm_p(|A|) = norm_p(-A).  The
+    \* generator follows a norm by the same norm of the negated / absolute operand; the two observations of
+    \* the same back end must coincide (up to rounding)
+    ELSE IF nh.p = e.ia[1] /\ nh.d = MapSeq(A.d, Abs)
+            /\ Abs(e.out[1] - nh.o) > 2 + TolTy(ty, (Abs(nh.o) \div 1024) + 1) THEN "SignDependent"
+    ELSE ""
 
 CheckArgmax(e, A) ==
     IF ~IsM(A) \/ ~NonEmpty(A) THEN "Malformed"
@@ -136,7 +145,7 @@ AllOps == RegOps \cup QIntOps \cup EqOps \cup QRatOps \cup VarOps \cup NormHalfO
 RejName(op) == "reject_" \o op
 HitNames == AllOps \cup { RejName(op) : op \in RejectOps }
             \cup {"eq_false_on_shape_mismatch", "eq_false_same_size_other_shape", "approx_false_same_size_other_shape",
-                  "eq_true", "eq_false_same_shape", "binary_mixed_layout", "unconstrained_div0", "unconstrained_softmax_matrix",
+                  "eq_true", "eq_false_same_shape", "binary_mixed_layout", "norm_sign_independent", "unconstrained_div0", "unconstrained_softmax_matrix",
                   "unique_sorted", "argmax_tie", "inplace_equals_copy"}
 
 HitSet(e, A, B, cl) ==
@@ -151,6 +160,7 @@ HitSet(e, A, B, cl) ==
                THEN {"approx_false_same_size_other_shape"} ELSE {})
          \* a binary call one of whose operands (only) descends from a transpose / column-major constructor
          \cup (IF e.ev = "Op" /\ e.b # 0 /\ IsM(A) /\ IsM(B) /\ e.atr # e.btr THEN {"binary_mixed_layout"} ELSE {})
+         \cup (IF e.op \in NormHalfOps /\ nh.p = e.ia[1] /\ nh.d = MapSeq(A.d, Abs) /\ nh.s # A.d THEN {"norm_sign_independent"} ELSE {})
          \cup (IF e.op = "eq" /\ e.status = "ok" /\ e.bool THEN {"eq_true"} ELSE {})
          \cup (IF e.op = "eq" /\ e.status = "ok" /\ ~e.bool /\ A.k # "e" /\ B.k # "e" /\ SameShape(A, B) THEN {"eq_false_same_shape"} ELSE {})
          \cup (IF e.op \in {"div", "div_mut", "v_div", "v_div_mut"} /\ e.status = "ok" /\ \E x \in 1..Len(B.d) : B.d[x] = 0
@@ -183,6 +193,7 @@ Judge(e, A, B, cl) ==
     /\ IF cl = "" THEN nbad' = nbad ELSE Bad(e, cl) /\ nbad' = nbad + 1
     /\ hits' = UpdHits(HitSet(e, A, B, cl))
     /\ regs' = NextRegs(e)
+    /\ nh' = IF e.op \in NormHalfOps /\ cl = "" THEN [s |-> A.d, d |-> MapSeq(A.d, Abs), p |-> e.ia[1], o |-> e.out[1]] ELSE nh
     /\ UNCHANGED ty
 
 OnEvent(e, A, B) == Judge(e, A, B, Check(e, A, B))
@@ -192,11 +203,11 @@ Step ==
     /\ l <= Len(Rec)
     /\ l' = l + 1
     /\ IF e.ev = "Reset"
-       THEN /\ regs' = EmptyRegs /\ ty' = e.ty /\ UNCHANGED <<nbad, hits>>
+       THEN /\ regs' = EmptyRegs /\ ty' = e.ty /\ nh' = NoNH /\ UNCHANGED <<nbad, hits>>
        ELSE OnEvent(e, IF e.ev = "Stat" THEN [k |-> e.ik, r |-> e.ir, c |-> e.ic, d |-> e.id] ELSE RegOf(e.a),
                     RegOf(e.b))
 
-Init == /\ l = 1 /\ regs = EmptyRegs /\ ty = "f64" /\ nbad = 0
+Init == /\ l = 1 /\ regs = EmptyRegs /\ ty = "f64" /\ nbad = 0 /\ nh = NoNH
         /\ hits = [h \in HitNames |-> 0]
 Next == Step
 Spec == Init /\ [][Next]_vars
